@@ -327,7 +327,7 @@ func (s *Store[K, V]) GetWithSecodary(key K) (V, bool, error) {
 		if !ok {
 			return v, &NotFound{}
 		}
-		if expire <= s.timerwheel.clock.NowNano() {
+		if expire != 0 && expire <= s.timerwheel.clock.NowNano() {
 			err = s.secondaryCache.Delete(key)
 			if err == nil {
 				err = &NotFound{}
